@@ -127,7 +127,14 @@ class Scenario:
                             # terminal is 5 rows: small / exactly full / taller than the screen (scrolls; with the
                             # cursor on the first line that line leaves the screen) / empty
                             shape = st.get("shape", "small")
-                            if shape == "small":
+                            if shape == "badrow":
+                                # a render that raises part-way (a row that is no string), the exception leaves the contexts
+                                obj.render_to_terminal([fmtstr("ok", "red"), "y", None, "z"], (0, 0))
+                            elif shape.startswith("cut"):
+                                # a foreign exception lands at the n-th line executed inside render_to_terminal and
+                                # whatever it calls in the library
+                                _render_cut(obj, int(shape[3:]), [fmtstr("ab", "red"), "c", fmtstr("d", "bold")])
+                            elif shape == "small":
                                 obj.render_to_terminal([fmtstr("hi", "red"), "x"], (1, 1))
                             elif shape == "full" or kind == "Fullscreen":
                                 obj.render_to_terminal([fmtstr("r%d" % k, "blue") for k in range(5)], (4, 1))
@@ -233,6 +240,32 @@ class Scenario:
         self.out.close()
 
 
+class _Cut(Exception):
+    pass
+
+
+def _render_cut(win, n, array):
+    """win.render_to_terminal(array) with _Cut raised at the n-th line event in library code below the call."""
+    count = [0]
+
+    def tracer(frame, event, arg):
+        fn = frame.f_code.co_filename
+        if "curtsies" not in fn:
+            return None
+        if event == "line":
+            count[0] += 1
+            if count[0] == n:
+                sys.settrace(None)
+                raise _Cut("foreign exception inside a render")
+        return tracer
+    old = sys.gettrace()
+    sys.settrace(tracer)
+    try:
+        win.render_to_terminal(array, (0, 0))
+    finally:
+        sys.settrace(old)
+
+
 def _user_handler(signum, frame):
     pass
 
@@ -261,7 +294,7 @@ class C12(TraceCheck):
     module = "CtxTrace"
     rule = ("scenarios on real ptys: nestings of <=3 contexts among Input (sigint_event, disable_terminal_start_stop), "
             "FullscreenWindow (hide_cursor), CursorAwareWindow (hide_cursor, keep_last_line), Cbreak, Nonblocking, Termmode; "
-            "bodies of renders, requests, thread-safe/scheduled triggers; normal exit or an exception after every prefix; "
+            "bodies of renders, requests, thread-safe/scheduled triggers; normal exit or an exception after every prefix; renders that raise part-way (a row that is no string; a foreign exception landing at the n-th line executed inside render_to_terminal), the exception then leaving the contexts; "
             "repeated enter/exit; a real SIGINT sent from another thread during a blocked request (KeyboardInterrupt with "
             "sigint_event off, SigIntEvent with it on); main and non-main thread; initial O_NONBLOCK off/on and two initial "
             "tty settings. After every step: termios attributes, O_NONBLOCK, SIGINT handler, signal wake-up fd, number of open "
@@ -324,6 +357,11 @@ class C12(TraceCheck):
                         for end in (X, R):
                             yield [init, E("Fullscreen", hide=hide)] + [OP("render", shape=x) for x in shapes] + [end]
                             yield [init, E("CursorAware", hide=hide, keep=hide)] + [OP("render", shape=x) for x in shapes] + [end]
+                    # renders that raise part-way: a row that is no string, a foreign exception at the n-th line
+                    for shape in ["badrow"] + ["cut%d" % n for n in ((2, 9, 23, 40, 71) if main else (5, 31))]:
+                        for first in ((), ("small",)):
+                            yield [init, E("Fullscreen", hide=hide)] + [OP("render", shape=x) for x in first] + [OP("render", shape=shape), X]
+                            yield [init, E("CursorAware", hide=hide, keep=hide)] + [OP("render", shape=x) for x in first] + [OP("render", shape=shape), X]
                 for kind in ("Cbreak", "Nonblocking", "Termmode"):
                     for end in (X, R):
                         yield [init, E(kind), end]
